@@ -19,22 +19,26 @@ Proof. reflexivity. Qed.
 
 (* saveTimestamp: LeaderTxn put; lastSavedTime stored only after a succeeded commit  [model: save_txn + with_saved] *)
 Lemma skel_saveTimestamp_ok : skel_saveTimestamp =
-  [Call "LeaderTxn"; Call "Commit"; IfE "err != nil" [Ret] []; IfE "!resp.Succeeded" [Ret] []; Call "Store"; Ret].
+  [Call "LeaderTxn"; Call "Commit"; IfE "err != nil" [Assign "t.saveUncertain" "= true"; Ret] []; IfE "!resp.Succeeded" [Ret] []; Call "Store"; Assign "t.saveUncertain" "= false"; Ret].
+Proof. reflexivity. Qed.
+(* the repair of the save uncertainty: the own window is read back, lastSavedTime only moves up, the mark is cleared *)
+Lemma skel_refreshLastSavedTime_ok : skel_refreshLastSavedTime =
+  [IfE "!t.saveUncertain" [Ret] []; Call "GetValue"; IfE "err != nil" [Ret] []; IfE "len(value) != 0" [Call "ParseTimestamp"; IfE "err != nil" [Ret] []; Call "Load"; Call "SubRealTimeByWallClock"; IfE "!ok || typeutil.SubRealTimeByWallClock(stored, last) > 0" [Call "Store"] []] []; Assign "t.saveUncertain" "= false"; Ret].
 Proof. reflexivity. Qed.
 
 (* SyncTimestamp: saveMu held over load and save; memory set with force afterwards  [model: LSyncLoad / LSyncSave / LSyncSet] *)
 Lemma skel_SyncTimestamp_ok : skel_SyncTimestamp =
-  [Lock "t.saveMu"; Call "loadTimestamp"; IfE "err != nil" [Unlock "t.saveMu"; Ret] []; Assign "next" ":= time.Now()"; DeferE [Assign "next" "= next.Add(time.Hour)"]; DeferE [Assign "next" "= next.Add(-time.Hour)"]; IfE "typeutil.SubRealTimeByWallClock(next, last) < UpdateTimestampGuard" [Assign "next" "= last.Add(UpdateTimestampGuard)"] []; Assign "save" ":= next.Add(t.saveInterval)"; Call "saveTimestamp(leadership, save)"; Unlock "t.saveMu"; IfE "err != nil" [Ret] []; Call "setTSOPhysical(next, true)"; Ret].
+  [Lock "t.saveMu"; Call "loadTimestamp"; IfE "err != nil" [Unlock "t.saveMu"; Ret] []; Assign "next" ":= time.Now()"; DeferE [Assign "next" "= next.Add(time.Hour)"]; DeferE [Assign "next" "= next.Add(-time.Hour)"]; Call "SubRealTimeByWallClock"; IfE "typeutil.SubRealTimeByWallClock(next, last) < UpdateTimestampGuard" [Assign "next" "= last.Add(UpdateTimestampGuard)"] []; Assign "save" ":= next.Add(t.saveInterval)"; Call "saveTimestamp(leadership, save)"; Unlock "t.saveMu"; IfE "err != nil" [Ret] []; Call "setTSOPhysical(next, true)"; Ret].
 Proof. reflexivity. Qed.
 
 (* resetUserTimestamp: tsoMux held throughout; Check; smaller / equal-not-greater / too-far rejected; saveMu around decide+save; memory written last  [model: LURBegin / LURDecide / LURSave / LUREnd] *)
 Lemma skel_resetUserTimestamp_ok : skel_resetUserTimestamp =
-  [Lock "t.tsoMux"; DeferUnlock "t.tsoMux"; Call "Check"; IfE "!leadership.Check()" [Ret] []; IfE "physicalDifference < 0" [IfE "ignoreSmaller" [Ret] []; Ret] []; IfE "physicalDifference == 0 && logicalDifference <= 0" [IfE "ignoreSmaller" [Ret] []; Ret] []; IfE "physicalDifference >= t.maxResetTSGap().Milliseconds()" [Ret] []; Lock "t.saveMu"; Call "Load"; IfE "typeutil.SubRealTimeByWallClock(t.lastSavedTime.Load().(time.Time), nextPhysical) <= UpdateTimestampGuard" [Assign "save" ":= nextPhysical.Add(t.saveInterval)"; Call "saveTimestamp(leadership, save)"; IfE "err != nil" [Unlock "t.saveMu"; Ret] []] []; Unlock "t.saveMu"; Assign "t.tsoMux.physical" "= nextPhysical"; Assign "t.tsoMux.logical" "= int64(nextLogical)"; Ret].
+  [Lock "t.tsoMux"; DeferUnlock "t.tsoMux"; Call "Check"; IfE "!leadership.Check()" [Ret] []; IfE "physicalDifference < 0" [IfE "ignoreSmaller" [Ret] []; Ret] []; IfE "physicalDifference == 0 && logicalDifference <= 0" [IfE "ignoreSmaller" [Ret] []; Ret] []; IfE "physicalDifference >= t.maxResetTSGap().Milliseconds()" [Ret] []; Lock "t.saveMu"; Call "refreshLastSavedTime"; IfE "err != nil" [Unlock "t.saveMu"; Ret] []; Call "Load"; Call "SubRealTimeByWallClock"; IfE "typeutil.SubRealTimeByWallClock(t.lastSavedTime.Load().(time.Time), nextPhysical) <= UpdateTimestampGuard" [Assign "save" ":= nextPhysical.Add(t.saveInterval)"; Call "saveTimestamp(leadership, save)"; IfE "err != nil" [Unlock "t.saveMu"; Ret] []] []; Unlock "t.saveMu"; Assign "t.tsoMux.physical" "= nextPhysical"; Assign "t.tsoMux.logical" "= int64(nextLogical)"; Ret].
 Proof. reflexivity. Qed.
 
 (* UpdateTimestamp: snapshot; zero memory -> return; next; saveMu around decide+save; setTSOPhysical without force  [model: LUpdRead / LUpdDecide / LUpdSave / LUpdSet] *)
 Lemma skel_UpdateTimestamp_ok : skel_UpdateTimestamp =
-  [Call "getTSO"; IfE "prevPhysical == typeutil.ZeroTime" [Ret] []; IfE "jetLag > UpdateTimestampGuard" [Assign "next" "= now"] [IfE "prevLogical > maxLogical/2" [Assign "next" "= prevPhysical.Add(time.Millisecond)"] [Ret]]; Lock "t.saveMu"; Call "Load"; IfE "typeutil.SubRealTimeByWallClock(t.lastSavedTime.Load().(time.Time), next) <= UpdateTimestampGuard" [Assign "save" ":= next.Add(t.saveInterval)"; Call "saveTimestamp(leadership, save)"; IfE "err != nil" [Unlock "t.saveMu"; Ret] []] []; Unlock "t.saveMu"; Call "setTSOPhysical(next, false)"; Ret].
+  [Call "getTSO"; IfE "prevPhysical == typeutil.ZeroTime" [Ret] []; Call "SubRealTimeByWallClock"; IfE "jetLag > UpdateTimestampGuard" [Assign "next" "= now"] [IfE "prevLogical > maxLogical/2" [Assign "next" "= prevPhysical.Add(time.Millisecond)"] [Ret]]; Lock "t.saveMu"; Call "refreshLastSavedTime"; IfE "err != nil" [Unlock "t.saveMu"; Ret] []; Call "Load"; Call "SubRealTimeByWallClock"; IfE "typeutil.SubRealTimeByWallClock(t.lastSavedTime.Load().(time.Time), next) <= UpdateTimestampGuard" [Assign "save" ":= next.Add(t.saveInterval)"; Call "saveTimestamp(leadership, save)"; IfE "err != nil" [Unlock "t.saveMu"; Ret] []] []; Unlock "t.saveMu"; Call "setTSOPhysical(next, false)"; Ret].
 Proof. reflexivity. Qed.
 
 (* getTS: retry loop; Check when memory is zero; generate; overflow -> retry; second Check before answering  [model: LGen / LRespond] *)
